@@ -41,6 +41,9 @@ THEOREMS = [
     "PorepyVerif.C25.node_components",
     "PorepyVerif.C25.split_nodes_count",
     "PorepyVerif.C25.node_copy_of_cell",
+    "PorepyVerif.C25.valid_of_check",
+    "PorepyVerif.C25.split_checked",
+    "PorepyVerif.C25.entry_dispatch",
 ]
 LEAN_MODULES = ["PorepyVerif.C25.Props"]
 AUDIT = "PorepyVerif/C25/Audit.lean"
@@ -75,7 +78,11 @@ EXPLANATION = ("CORE: three Lean models. (A) split_faces over a list of fracture
                "normals and is_ccw_polygon as coded, tolerance test) over exact rationals: plane_faces_exact / plane_nodes_exact (exactly the grid faces / nodes on the rectangle, "
                "any of the 8 vertex orders, all grid sizes, all strictly increasing node coordinates, tolerance < half a cell). (C) duplicate_nodes: node_components (labels = connected "
                "components of the cell neighbourhood minus the split faces), split_nodes_count (added nodes = sum of (components - 1); faces keep their node count), node_copy_of_cell. "
-               "Correspondence ties (A), (B), (C) to cart_grid / tensor_grid / create_mdg on every hosting subdomain (3d->2d, 2d->1d, 1d->0d), with a stratum of grids whose "
+               "(D) decidable hypotheses: Host.validB / noFracB (evaluated by the driver on EVERY case; the harness requires true) imply Host.Valid (valid_of_check), "
+               "split_checked restates the split theorems with these boolean conditions only; entry_dispatch: argument handling of cart_grid / tensor_grid. "
+               "The per-face geometry that _duplicate_specific_faces copies (normal, centre, area) travels through the model as one vector: the duplicate has the same "
+               "centre and area as the original (theorem split_normals_opposite: normal d = normal f for the whole vector). "
+               "Correspondence ties (A), (B), (C), (D) to cart_grid / tensor_grid / create_mdg on every hosting subdomain (3d->2d, 2d->1d, 1d->0d), with a stratum of grids whose "
                "nx, ny, nz are pairwise different and direct calls of _find_nodes_on_line along all axes; the geometric statements (centres, measures, outward normals, volume, "
                "containment) and all simplex cases are decided by the oracle only.")
 ASSUMPTIONS = [
@@ -249,7 +256,8 @@ def _unsplit0(case):
         rows = _rows(sd.cell_faces)
         nF = sd.num_faces
         tags = {k: [bool(b) for b in sd.tags[k + "_faces"]] for k in ("fracture", "tip", "domain_boundary")}
-        normals = [[F(float(x)) for x in sd.face_normals[:, f]] for f in range(nF)]
+        normals = [[F(float(x)) for x in sd.face_normals[:, f]] + [F(float(x)) for x in sd.face_centers[:, f]] + [F(float(sd.face_areas[f]))]
+                   for f in range(nF)]  # everything _duplicate_specific_faces copies to the duplicate: normal, centre, area
         centers = [[F(float(x)) for x in sd.face_centers[:, f]] for f in range(nF)]
         ccent = [[F(float(x)) for x in sd.cell_centers[:, c]] for c in range(sd.num_cells)]
         left = [[0] * len(r) for r in rows]
@@ -362,7 +370,34 @@ def _new2old(sd, h):
     return [where[int(i)] for i in np.atleast_1d(sd.global_point_ind)]
 
 
+def _args_call(case):
+    import porepy as pp
+    if case["entry"] == "cart_grid":
+        kw = {} if case["phys_len"] is None else {"physdims": [1.0 + 0.5 * d for d in range(case["phys_len"])]}
+        return pp.meshing.cart_grid([], [2] * case["ndim"], **kw)
+    xs = [np.array([0.0, 0.5, 2.0]) for _ in range(1 + case["has_y"] + case["has_z"])] if case["has_y"] or not case["has_z"] else None
+    if xs is None:  # z without y
+        return pp.meshing.tensor_grid([], np.array([0.0, 0.5, 2.0]), None, np.array([0.0, 0.5, 2.0]))
+    return pp.meshing.tensor_grid([], *xs)
+
+
+def _args_expected(case):
+    """independent statement of the documented argument handling"""
+    if case["entry"] == "cart_grid":
+        if case["phys_len"] is not None and case["phys_len"] != case["ndim"]:
+            return {"err": "ValueError"}
+        return {"dim": case["ndim"]} if case["ndim"] in (2, 3) else {"err": "ValueError"}
+    if not case["has_y"]:
+        return {"err": "NotImplementedError"}
+    return {"dim": 3 if case["has_z"] else 2}
+
+
 def impl_run(case):
+    if case["kind"] == "args":
+        try:
+            return {"dim": int(_args_call(case).dim_max())}
+        except Exception as e:
+            return {"err": type(e).__name__}
     if case["kind"] != "cart":
         return {"oracle_only": True}
     try:
@@ -378,7 +413,8 @@ def impl_run(case):
              "frac": [int(b) for b in sd.tags["fracture_faces"]], "tip": [int(b) for b in sd.tags["tip_faces"]],
              "dom": [int(b) for b in sd.tags["domain_boundary_faces"]],
              "pairs": [[int(a), int(b)] for a, b in zip(*np.asarray(sd.frac_pairs).reshape(2, -1))] if hasattr(sd, "frac_pairs") else [],
-             "normals": [[frac(float(x)) for x in sd.face_normals[:, f]] for f in range(sd.num_faces)], "ifaces": [],
+             "normals": [[frac(float(x)) for x in sd.face_normals[:, f]] + [frac(float(x)) for x in sd.face_centers[:, f]] + [frac(float(sd.face_areas[f]))]
+                         for f in range(sd.num_faces)], "ifaces": [], "valid": True,
              "nodes": {"nN": int(sd.num_nodes), "face_nodes": _raw_face_nodes(sd),
                        "new2old": [int(i) for i in _new2old(sd, h)]}}
         for fcd in h["fcs"]:
@@ -396,6 +432,10 @@ def impl_run(case):
 
 # ------------------------------------------------------------------------------------------------ model side
 def model_ops(case):
+    if case["kind"] == "args":
+        if case["entry"] == "cart_grid":
+            return [{"op": "cart_args", "ndim": case["ndim"], "phys": case["phys_len"]}]
+        return [{"op": "tensor_args", "has_y": bool(case["has_y"]), "has_z": bool(case["has_z"])}]
     if case["kind"] != "cart":
         return []
     ops = []
@@ -414,6 +454,8 @@ def model_ops(case):
 
 
 def model_decode(outs, case):
+    if case["kind"] == "args":
+        return outs[0]
     if case["kind"] != "cart":
         return {"oracle_only": True}
     res, k = [], 0
@@ -442,6 +484,8 @@ def model_decode(outs, case):
 
 
 def compare(impl, model, case):
+    if case["kind"] == "args":
+        return deep_compare(impl, model)
     if case["kind"] != "cart":
         return None
     if isinstance(impl, dict) and "build_raises" in impl:
@@ -560,20 +604,61 @@ def _gen_cart(rng, tier, D):
             n[1] = rng.randint(2, hi)
     h = [F(rng.choice([1, 1, 1, 2, 3, 5]), rng.choice([1, 1, 2, 4, 8])) for _ in range(D)]
     nfr = rng.choice([1, 2, 2, 3, 3])
-    pattern = rng.choice(["X", "T", "L", "rand", "rand", "rand"])
+    pattern = rng.choice(["X", "T", "L", "rand", "rand", "rand", "single", "fullspan", "parallel", "coplanar", "star"])
     frs, faces = [], set()
+
+    def add(f):
+        ff = _faces_of(f, D)
+        if not ff or ff & faces:
+            return False
+        frs.append(f)
+        faces.update(ff)
+        return True
+
+    if pattern == "single":  # fractures of a single host face
+        for _ in range(nfr):
+            f = _rand_frac(rng, n, D)
+            for t in f["lo"]:
+                f["lo"][t] = rng.randint(0, n[t] - 1)
+                f["hi"][t] = f["lo"][t] + 1
+            add(f)
+    elif pattern == "fullspan":  # a fracture that cuts the whole domain in two
+        f = _rand_frac(rng, n, D)
+        for t in f["lo"]:
+            f["lo"][t], f["hi"][t] = 0, n[t]
+        add(f)
+    elif pattern in ("parallel", "coplanar"):
+        f = _rand_frac(rng, n, D)
+        add(f)
+        g = {"o": f["o"], "k": f["k"], "lo": dict(f["lo"]), "hi": dict(f["hi"])}
+        if pattern == "parallel":  # neighbouring grid planes: host cells with fracture faces on two sides
+            g["k"] = f["k"] + 1 if f["k"] + 1 <= n[f["o"]] - 1 else f["k"] - 1
+            if g["k"] >= 1:
+                add(g)
+        else:  # same plane, touching end to end
+            t = rng.choice(sorted(f["lo"]))
+            if f["hi"][t] < n[t]:
+                g["lo"][t], g["hi"][t] = f["hi"][t], rng.randint(f["hi"][t] + 1, n[t])
+                add(g)
+    elif pattern == "star":  # a through-going fracture met by two fractures ending on it from both sides at the same place
+        f = _rand_frac(rng, n, D)
+        add(f)
+        g1 = _pattern_frac(rng, n, D, f, "T")
+        o1, k1 = f["o"], f["k"]
+        if g1["o"] != o1 and o1 in g1["lo"]:
+            g1["lo"][o1], g1["hi"][o1] = k1, rng.randint(k1 + 1, n[o1])
+            g2 = {"o": g1["o"], "k": g1["k"], "lo": dict(g1["lo"]), "hi": dict(g1["hi"])}
+            g2["lo"][o1], g2["hi"][o1] = rng.randint(0, k1 - 1), k1
+            add(g1)
+            add(g2)
     tries = 0
     while len(frs) < nfr and tries < 60:
         tries += 1
-        if frs and pattern != "rand" and len(frs) == 1:
+        if frs and pattern in ("X", "T", "L") and len(frs) == 1:
             f = _pattern_frac(rng, n, D, frs[0], pattern)
         else:
             f = _rand_frac(rng, n, D)
-        ff = _faces_of(f, D)
-        if not ff or ff & faces:
-            continue
-        frs.append(f)
-        faces |= ff
+        add(f)
     rng.shuffle(frs)
     tensor = rng.random() < 0.2
     perturb = (not tensor) and rng.random() < 0.1
@@ -599,6 +684,7 @@ def _gen_cart(rng, tier, D):
                 ptsl[i] = pts[::-1]
     case = {"kind": "cart", "dim": D, "nx": n, "phys": [frac(xs[d][-1] if tensor else n[d] * h[d]) for d in range(D)], "fracs": _to_case_fracs(ptsl, D),
             "entry": "tensor_grid" if tensor else ("cart_grid" if (perturb or rng.random() < 0.7) else "create_mdg")}
+    case["stratum"] = pattern + ("+snap" if perturb else "") + ("+tensor" if tensor else "")
     if tensor:
         case["xs"] = [[frac(x) for x in c] for c in xs]
         if rng.random() < 0.3:
@@ -646,10 +732,19 @@ def _gen_simplex(rng, tier, D):
         for d in range(D):
             rows[perm[d]] = [frac(1 - F(x)) if refl[d] else x for x in f[d]]
         out.append(rows)
-    return {"kind": "simplex", "dim": D, "phys": ["1"] * D, "fracs": out, "h": h}
+    return {"kind": "simplex", "dim": D, "phys": ["1"] * D, "fracs": out, "h": h, "stratum": "simplex"}
+
+
+def _gen_args(rng):
+    if rng.random() < 0.6:
+        ndim = rng.choice([1, 2, 2, 3, 3, 4])
+        return {"kind": "args", "entry": "cart_grid", "ndim": ndim, "phys_len": rng.choice([None, ndim, ndim, ndim + 1, max(ndim - 1, 1)])}
+    return {"kind": "args", "entry": "tensor_grid", "has_y": rng.random() < 0.7, "has_z": rng.random() < 0.5}
 
 
 def gen_case(rng, tier):
+    if rng.random() < 0.06:
+        return _gen_args(rng)
     r = rng.random()
     if tier == "quick":  # gmsh cases are mostly left to the corpus (two of them) and the thorough tier
         if r < 0.04:
@@ -787,6 +882,20 @@ def _node_split_check(sd):
 
 
 def oracle(case):
+    if case["kind"] == "args":
+        want = _args_expected(case)
+        try:
+            mdg = _args_call(case)
+        except Exception as e:
+            got = {"err": type(e).__name__}
+        else:
+            got = {"dim": int(mdg.dim_max())}
+            tops = mdg.subdomains(dim=got["dim"])
+            if len(tops) != 1 or len(mdg.subdomains()) != 1 or mdg.num_interfaces() != 0:
+                return _fail("args:unfractured-grid", f"{case}: an unfractured network gave {len(mdg.subdomains())} grids / {mdg.num_interfaces()} interfaces")
+        if got != want:
+            return _fail(f"args:{case['entry']}", f"{case}: entry point answered {got}, documented behaviour {want}")
+        return None
     try:
         mdg = _build(case)
     except Exception as e:
@@ -1000,10 +1109,14 @@ def _oracle_mdg(mdg, case):
 
 # ------------------------------------------------------------------------------------------------ bookkeeping
 def nontrivial(case):
+    if case["kind"] == "args":
+        return True
     return len(case["fracs"]) >= 2 or any(F(x) == 0 or F(x) == F(p) for f in case["fracs"] for row, p in zip(f, case["phys"]) for x in row)
 
 
 def shrink_candidates(case):
+    if case["kind"] == "args":
+        return
     fr = case["fracs"]
     if len(fr) > 1:
         for i in range(len(fr)):
@@ -1015,7 +1128,14 @@ def shrink_candidates(case):
 def stats(cases, impl_outs):
     st = {"cart2": 0, "cart3": 0, "simplex2": 0, "simplex3": 0, "create_mdg_entry": 0, "tensor": 0, "n_pairwise_different": 0, "n_fracs": {}, "hosts": 0, "interfaces": 0, "two_sided": 0, "one_sided": 0,
           "host_dims": {}}
+    st["args"] = 0
+    st["strata"] = {}
     for c, o in zip(cases, impl_outs):
+        if c["kind"] == "args":
+            st["args"] += 1
+            continue
+        k = c.get("stratum", "corpus")
+        st["strata"][k] = st["strata"].get(k, 0) + 1
         st[("cart" if c["kind"] == "cart" else "simplex") + str(c["dim"])] += 1
         st["create_mdg_entry"] += c.get("entry") == "create_mdg"
         st["tensor"] += "xs" in c
